@@ -376,6 +376,21 @@ def pcache_method(c, interp, ref, o, name, args, kwargs, node):
             return NONE
         if isinstance(a, VRef) and c.obj(a).kind == 'list' and c.obj(a).meta.get('items') == []:
             return NONE
+        if isinstance(a, VRef) and c.obj(a).kind == 'map':
+            # invalidate(mapping): every cached object whose oid is a key
+            keys = c.obj(a).f['dom']
+            cache = dict(o.f)
+            uoid = u['oid']
+            sel = z3.Select
+            hit = lambda x: z3.And(sel(uoid, x) >= 0, sel(keys, sel(uoid, x)),
+                                   sel(cache['dom'], sel(uoid, x)), sel(cache['val'], sel(uoid, x)) == x)
+            old = u['changed']
+            new = z3.Array(fresh_name('changed'), I, I)
+            c.roles.array(new, 'obj')
+            c.assume(All(['obj'], lambda x: z3.Select(new, x) == z3.If(hit(x), -1, z3.Select(old, x))))
+            u['changed'] = new
+            c.event('cache-invalidate-keys', a.id)
+            return NONE
         raise Unsupported('cache.invalidate(%r)' % (a,), node)
     if name in ('incrgc', 'update_object_size_estimation', 'minimize', 'full_sweep'):
         return NONE
@@ -445,6 +460,16 @@ def storage_method(c, interp, ref, o, name, args, kwargs, node):
             rc = c.obj(w.readCurrent).f
             good = bytes_num(c, args[1]) == z3.Select(rc['val'], k)
             w.checked = z3.If(good, z3.Store(w.checked, k, z3.BoolVal(True)), w.checked)
+        return NONE
+    if name in ('store', 'storeBlob'):
+        k = _key(c, args[0], node)
+        txn = args[-1]
+        c.event('storage.' + name, k, args[1], txn)
+        if c.choose([True, True], 'store-fails') == 1:
+            raise RaiseSig(VExc(ConflictError, [], {'oid': args[0]}))
+        tx_ok = isinstance(txn, VOpaque) and 'txn_data' in c.ghost and txn.t.eq(c.ghost['txn_data'].t)
+        if k is not None and tx_ok:
+            w.stored = z3.Store(getattr(w, 'stored', z3.K(I, z3.BoolVal(False))), k, z3.BoolVal(True))
         return NONE
     if name == 'new_oid':
         return c.fresh_bytes(8, 'new_oid')
